@@ -25,6 +25,8 @@ pub enum StepEnd {
     Continue,
     /// sequence ends here without a finding (halt, undefined byte, SP supervision)
     End(&'static str),
+    /// STOP fetched, machine and model agree; the continue key resumes with the next instruction
+    Stopped,
     /// mismatch: (signature, detail)
     Mismatch(String, String),
 }
@@ -94,6 +96,9 @@ pub fn lockstep(m: &mut Machine, r: &mut Ref, assembly: bool, which: Which) -> (
                 if !d.is_empty() {
                     return (StepEnd::Mismatch(format!("sem:halt:{}", group), format!("state at halt differs: {:?}", d)), info);
                 }
+            }
+            if out == Outcome::Stopped {
+                return (StepEnd::Stopped, info);
             }
             (StepEnd::End("halt-opcode"), info)
         }
@@ -333,6 +338,7 @@ pub fn check_seq(c: &SeqCase, which: Which) -> (Verdict, SeqStats) {
         None => return (Verdict::Fail("setup:noboundary".into(), "no first boundary".into()), stats),
     };
     let mut r = model_of(&st, &m);
+    let mut continued = 0;
     for i in 0..c.limit as u64 {
         // cycles are only countable with raw edges; C15 takes every step raw except where the mode
         // pattern asks for assembly (then the count is skipped but the state still carries over)
@@ -351,6 +357,37 @@ pub fn check_seq(c: &SeqCase, which: Which) -> (Verdict, SeqStats) {
             StepEnd::End(why) => {
                 stats.end = why;
                 break;
+            }
+            StepEnd::Stopped => {
+                // continue key: the machine finishes the (empty) routine of STOP and fetches the next
+                // instruction; nothing else may change
+                stats.executed += 1;
+                continued += 1;
+                if continued > 4 {
+                    stats.end = "halt-opcode";
+                    break;
+                }
+                m.trigger_key_continue();
+                let mut g = 0;
+                while !m.is_instruction_done() && m.state() == State::Running && g < 64 {
+                    m.raw_mut().trigger_clock_edge();
+                    g += 1;
+                }
+                if m.state() != State::Running || !m.is_instruction_done() {
+                    if which == Which::Semantics {
+                        return (Verdict::Fail("sem:continue-after-stop".into(), format!("after STOP + continue the machine is {:?} / not at an instruction boundary", m.state())), stats);
+                    }
+                    stats.end = "halt-opcode";
+                    break;
+                }
+                let d = diff_state(&m, &r);
+                if !d.is_empty() {
+                    if which == Which::Semantics {
+                        return (Verdict::Fail("sem:continue-after-stop".into(), format!("state after STOP + continue differs from the state at the stop: {:?}", d)), stats);
+                    }
+                    stats.end = "halt-opcode";
+                    break;
+                }
             }
             StepEnd::Mismatch(sig, d) => {
                 return (Verdict::Fail(sig, format!("after {} instructions in lock-step: {}", stats.executed, d)), stats);
